@@ -4,7 +4,7 @@ SNAPPY = dict(overlays=['contracts/snappy.ovl'], harness='harness/C08/snappy.c')
 JOBS = [
     dict(name='c08_snappy_read_varint', props=['C08', 'C10'], entry='h_snappy_read_varint',
          enforce='snappy_read_varint', min_loop_obligations=1, **SNAPPY),
-    dict(name='c08_snappy_decompress', props=['C08', 'C10'], entry='h_snappy_decompress',   # C10: every read of an element header stays inside the input = truncated elements are refused
+    dict(name='c08_snappy_decompress', props=['C08', 'C09', 'C10'], entry='h_snappy_decompress',   # C10: every read of an element header stays inside the input = truncated elements are refused
         
          enforce='carquet_snappy_decompress', replace=['snappy_read_varint'],
          min_loop_obligations=5, est_s=60, mem_gb=16, replayer='snappy_decompress', **SNAPPY),
